@@ -16,3 +16,8 @@ CHECKS["C29"] = {"pkg": "arith", "shards": 8,
     "text": "PageIndex.Cal is enumerated exhaustively for sizes 1..100 x lengths 0..220 x all pages (partition oracle: consecutive, covering, empty beyond N) and sampled over 64-bit page numbers including ones constructed so that (page-1)*size wraps 2^64.",
     "note": "the exact model is [min((p-1)s,n),min(ps,n)) in math/big"}
 
+
+CHECKS["C14"] = {"pkg": "crypto", "shards": 12,
+    "technique": "differential property-based testing (rapid) against an independent textbook secp256k1 (math/big, affine, double-and-add)",
+    "text": "Generated-input search with a differential oracle: key derivation, public-key parsing, signing, verification, recovery, ECDH and the deterministic key iterator are compared with a 300-line textbook implementation on edge-biased scalars, every invalid public-key class and structurally mutated signatures.",
+    "note": "trusted: math/big, crypto/sha256 and the reference curve code (harness/internal/ref/curve); the s in (n/2,2^255) band is judged under C10, not here"}
